@@ -652,6 +652,9 @@ func gmeParseOpts(s string) map[string]*multiendpoint.MultiEndpointOptions {
 	for _, item := range strings.Split(s, ",") {
 		i := strings.IndexByte(item, ':')
 		name, l := item[:i], item[i+1:]
+		if name == "~" {
+			name = "" // a MultiEndpoint may be named by the empty string
+		}
 		switch l {
 		case "-":
 			m[name] = nil
@@ -803,7 +806,9 @@ func (h *gmeHarness) exec(line string) (out string) {
 			return "bad-op"
 		}
 		ctx := context.Background()
-		if a["name"] != "-" {
+		if a["name"] == "~" {
+			ctx = NewMEContext(ctx, "") // named, by the empty name
+		} else if a["name"] != "-" {
 			ctx = NewMEContext(ctx, a["name"])
 		}
 		c := h.gme.pickConn(ctx)
@@ -891,7 +896,7 @@ func TestVerifGME(t *testing.T) {
 		}
 	}
 	eps := []string{"e1", "e2", "e3", "e4"}
-	names := []string{"default", "read", "w", "x"}
+	names := []string{"default", "read", "w", "x", "~"} // "~" stands for the empty name
 	genOpts := func() (string, string, string) {
 		n := 1 + rng.Intn(3)
 		items := []string{}
@@ -899,7 +904,7 @@ func TestVerifGME(t *testing.T) {
 		// any subset of the names: an update may drop one name while it adds another
 		pick := rng.Perm(len(names))
 		if rng.Intn(3) == 0 {
-			pick = []int{0, 1, 2, 3}
+			pick = []int{0, 1, 2, 3, 4}
 		}
 		for i := 0; i < n; i++ {
 			name := names[pick[i]]
@@ -967,7 +972,7 @@ func TestVerifGME(t *testing.T) {
 			case k < 3:
 				emit(fmt.Sprintf("gme pstate e=%s ready=%d", eps[rng.Intn(len(eps))], rng.Intn(2)))
 			case k < 7:
-				nm := []string{"-", "default", "read", "w", "x", "zzz"}[rng.Intn(6)]
+				nm := []string{"-", "default", "read", "w", "x", "zzz", "~", "-"}[rng.Intn(8)]
 				emit("gme rpc name=" + nm)
 			default:
 				d, o, fl := genOpts()
